@@ -808,6 +808,9 @@ func govcShow(c []interface{}) string {
 		if len(s) > 400 {
 			s = s[:400] + "..."
 		}
+		if b, ok := a.([]byte); ok {
+			s += fmt.Sprintf(" (len=%d cap=%d)", len(b), cap(b))
+		}
 		ps = append(ps, s)
 	}
 	return strings.Join(ps, " | ")
